@@ -1,3 +1,4 @@
 pub mod fft;
 pub mod kzg;
 pub mod sat;
+pub mod verifier;
